@@ -856,6 +856,27 @@ fn oracle_clean_op(rec: &mut Recorder, case_rent: (u64, u64), op: CleanOp, other
         rec.fail("cleanup_panics", &format!("{l} -> panic"));
         return;
     }
+    // liveness of the direct-write paths: normalize / refund of an account holding MORE than its minimum,
+    // and close of any account, need no signature and no funder balance — with a distinct counterpart
+    // and a total supply below 2^64 they must succeed, however large the excess (normalize_post /
+    // refund_post / close_post then judge the balances)
+    if l.contains(" zc16 ") || l.starts_with("set ") {
+        if let Some(o) = other {
+            let t0 = find(before, &op.tgt);
+            let rent0 = rent_min(case_rent, t0.data.len());
+            let set_ok = !l.starts_with("set ") || {
+                let tk: Vec<&str> = l.split(' ').collect();
+                match (parse_key(tk[3]), parse_key(tk[4])) {
+                    (Some(fk), Some(rk)) => find(before, &fk).is_signer && find(before, &fk).is_writable && find(before, &rk).is_writable && t0.owner == PROGRAM_ID && t0.data.len() >= W && t0.data[..W] == DISC_ZC16,
+                    _ => false,
+                }
+            };
+            let direct = ((op.op == "normalize" || op.op == "refund") && t0.lamports > rent0) || op.op == "close";
+            if direct && o != op.tgt && set_ok && res != "ok" {
+                rec.fail("excess_or_close_with_valid_counterpart_fails", &format!("{l} -> {ans}: lamports {} rent {rent0}", t0.lamports));
+            }
+        }
+    }
     // liveness of top-ups: a zero-copy account below its minimum (and not at 0), writable, with a
     // distinct, writable, System-owned, data-less funder that can sign (outer signer or seeded,
     // whatever carrier it sits in) and covers the shortfall => normalize / receive must succeed
@@ -1251,8 +1272,9 @@ fn c13_case(id: usize, rng: &mut Rng, rent: (u64, u64), ty: &str, op: &str, bal:
     };
     let final_len = newval.as_ref().map(|v| if tdata.len() > W { W + v.len() } else { tdata.len() }).unwrap_or(tdata.len());
     let rmin = rent_min(rent, if op == "close" { tdata.len() } else { final_len });
-    let other_lam: u64 = if twist == 2 { rng.below(3) } else { 5_000_000_000 };
     let by_lam = 777u64;
+    let mut other_lam: u64 = if twist == 2 { rng.below(3) } else { 5_000_000_000 };
+    let half = 1u64 << 63;
     let tlam: u64 = match bal {
         0 => 0,
         1 => 1,
@@ -1261,6 +1283,27 @@ fn c13_case(id: usize, rng: &mut Rng, rent: (u64, u64), ty: &str, op: &str, bal:
         4 => rmin + 1,
         5 => rmin * 2 + 3,
         6 => u64::MAX - other_lam - by_lam,
+        // the excess straddles 2^63 (sign bit of a signed distance)
+        7 => rmin + half - 1,
+        8 => rmin + half,
+        9 => rmin + half + 1,
+        // u64::MAX - k with the supply still below 2^64: the counterpart holds almost nothing
+        10 => {
+            other_lam = rng.below(3);
+            u64::MAX - by_lam - other_lam - rng.below(1000)
+        }
+        // the counterpart is the one near the top: crediting it brings it to (almost) u64::MAX
+        11 => {
+            let t = rmin * 2 + 3;
+            other_lam = u64::MAX - by_lam - t;
+            t
+        }
+        // ... and a funder near the top paying a top-up
+        12 => {
+            let t = rmin.saturating_sub(1);
+            other_lam = u64::MAX - by_lam - t;
+            t
+        }
         _ => rng.below(rmin * 3 + 10),
     };
     let oseeds: Vec<Vec<u8>> = vec![b"other".to_vec(), (id as u32).to_le_bytes().to_vec(), vec![]];
@@ -1318,7 +1361,10 @@ fn c13_set_case(id: usize, rng: &mut Rng, rent: (u64, u64), op: &str, order: &st
         3 => rmin,
         4 => rmin + 1,
         5 => rmin * 2 + 3,
-        _ => u64::MAX - f_lam - r_lam - by_lam,
+        6 => u64::MAX - f_lam - r_lam - by_lam,
+        7 => rmin + (1u64 << 63) - 1,
+        8 => rmin + (1u64 << 63),
+        _ => rmin + (1u64 << 63) + 1,
     };
     let fkey = key(id as u64 * 4);
     let rkey = if twist == 1 { fkey } else { key(id as u64 * 4 + 3) };
@@ -1337,7 +1383,7 @@ fn c13_set_case(id: usize, rng: &mut Rng, rent: (u64, u64), op: &str, order: &st
     (format!("case {id} c13 set {order} {op} bal={bal} size={size} twist={twist} rent={}x{}", rent.0, rent.1), lines)
 }
 
-const C13_RULE: &str = "grid: balance (0, 1, min-1, min, min+1, 2*min+3, 2^64-1-others) x data size (0 = lamport-only account, W, W+1, 100, 10000; borsh: 0, W, W+12.. ) x 3 rent parameter sets x funder/recipient (explicit argument, context cache set once, set twice with different accounts, missing cache, wrong cache filled) x plain / seeded funder, bare or behind Box<T> x cleanup argument (Normalize, Refund, Receive, Close) x Account / BorshAccount (with and without a changed value), each followed by the same cleanup again; derived account sets that cache BOTH a funder and a distinct recipient through the derive-generated validation, in both declaration orders (funder first / recipient first), x the four cached cleanup arguments x balances x sizes (plus funder == recipient, unsigned funder, read-only recipient, wrong discriminant); plus PRNG-drawn mixes with poor / unsigned funders. A case is non-trivial when a clean op issued a CPI, returned an error / panicked, or changed the world; distinct by case text hash.";
+const C13_RULE: &str = "grid: balance (0, 1, min-1, min, min+1, 2*min+3, 2^64-1-others, min+2^63-1, min+2^63, min+2^63+1, u64::MAX-k with a near-empty counterpart, counterpart near u64::MAX credited / paying) x data size (0 = lamport-only account, W, W+1, 100, 10000; borsh: 0, W, W+12.. ) x 3 rent parameter sets x funder/recipient (explicit argument, context cache set once, set twice with different accounts, missing cache, wrong cache filled) x plain / seeded funder, bare or behind Box<T> x cleanup argument (Normalize, Refund, Receive, Close) x Account / BorshAccount (with and without a changed value), each followed by the same cleanup again; derived account sets that cache BOTH a funder and a distinct recipient through the derive-generated validation, in both declaration orders (funder first / recipient first), x the four cached cleanup arguments x balances x sizes (plus funder == recipient, unsigned funder, read-only recipient, wrong discriminant); plus PRNG-drawn mixes with poor / unsigned funders. A case is non-trivial when a clean op issued a CPI, returned an error / panicked, or changed the world; distinct by case text hash.";
 
 pub fn run_c13(args: &Args) {
     let mut rec = Recorder::new(C13_RULE);
@@ -1355,7 +1401,7 @@ pub fn run_c13(args: &Args) {
     for rent in RENTS {
         for ty in ["zc16", "borsh"] {
             for op in ["normalize", "refund", "receive", "close"] {
-                for bal in 0..=6 {
+                for bal in 0..=12 {
                     for size in [0, W, W + 1, 100, 10_000] {
                         for (how, seeded_other) in [(0, false), (1, false), (2, false), (0, true), (1, true), (4, false), (4, true)] {
                             id += 1;
@@ -1372,7 +1418,7 @@ pub fn run_c13(args: &Args) {
     for rent in RENTS {
         for op in ["normalize", "refund", "receive", "close"] {
             for order in ["fr", "rf"] {
-                for bal in 0..=6 {
+                for bal in 0..=9 {
                     for size in [W, 24, 100] {
                         id += 1;
                         let (h, l) = c13_set_case(id, &mut rng, rent, op, order, bal, size, 0);
@@ -1396,7 +1442,7 @@ pub fn run_c13(args: &Args) {
         let op = *rng.pick(&["normalize", "refund", "receive", "close"]);
         let size = if ty == "borsh" { W + 12 + rng.below(200) as usize } else if rng.chance(1, 8) { 0 } else { rng.below(300) as usize };
         let (h, l) = if rng.chance(1, 5) {
-            c13_set_case(id, &mut rng.fork(), rent, op, if rng.chance(1, 2) { "fr" } else { "rf" }, rng.below(7) as usize, W + rng.below(120) as usize, rng.below(5) as usize)
+            c13_set_case(id, &mut rng.fork(), rent, op, if rng.chance(1, 2) { "fr" } else { "rf" }, rng.below(10) as usize, W + rng.below(120) as usize, rng.below(5) as usize)
         } else {
             c13_case(id, &mut rng.fork(), rent, ty, op, rng.below(8) as usize, size, rng.below(4) as usize, rng.chance(1, 3), rng.below(4) as usize)
         };
